@@ -50,6 +50,25 @@ def ref_encrypt(plain, salt_char, fillers=None):
     return out
 
 
+def lenient_decrypt(crypt):
+    """what a decoder that silently drops the length check of the last group would return (used to build secrets that
+    such a decoder confuses)"""
+    chars = crypt[3:]
+    first, chars = chars[0], chars[1:]
+    extra = 3 - next(i for i, f in enumerate(FAMILY) if first in f)
+    chars = chars[extra:]
+    prev, out = first, ""
+    while chars:
+        dec = ENC[len(out) % 7]
+        nib, chars = chars[:len(dec)], chars[len(dec):]
+        tot = 0
+        for c, w in zip(nib, dec):
+            tot += (((ALPHA.index(c) - ALPHA.index(prev)) % 65) - 1) * w
+            prev = c
+        out += chr(tot % 256)
+    return out
+
+
 def well_formed(s):
     return s.startswith("$9$") and len(s) >= 7 and all(c in ALPHA for c in s[3:])
 
@@ -118,7 +137,7 @@ def scope(res, pid, rng, tier):
     # random longer plaintexts, arbitrary salt strings (multi-character, outside the alphabet, empty, None)
     odd_salts = [None, "", "!", "_x", " ", "éa", "\n", "$9$", "nQ", "TESTSALT", "\U0001F600"]
     for _ in range(1500 if tier == "thorough" else 300):
-        n = rng.choice([0, 1, 2, 3, 7, 8, 15, 40])
+        n = rng.choice([0, 1, 2, 3, 7, 8, 15, 40, 40, 255, 256, 259, 260, 261, 300, 520, 1000])
         plain = "".join(chr(rng.randint(0, 255)) for _ in range(n))
         salt = rng.choice(odd_salts) if rng.random() < 0.4 else rng.choice(ALPHA) + "".join(rng.choice(ALPHA + "!_ ") for _ in range(rng.randint(0, 3)))
         cases.append((plain, salt))
@@ -133,6 +152,35 @@ def scope(res, pid, rng, tier):
             if res_str(r2) != plain and not (plain == "" and not well_formed(c)):
                 fails.append({"kind": "decrypt(encrypt(p)) != p", "plaintext": plain, "salt": salt, "crypt": c, "decrypted": r2})
     res.count("roundtrip_cases", len(cases))
+    # through the secret stage: a `$9$` value on a line that only the catch-all pattern recognises, over the whole alphabet
+    # (`-`, `.`, `/` included): what is written is a well-formed `$9$` string that decrypts to the place holder
+    import io
+    import re
+    from netconan.anonymize_files import FileAnonymizer
+    for k in range(40 if tier == "thorough" else 16):
+        plain = "".join(rng.choice("abcxyz019-./_%") for _ in range(rng.randint(3, 14)))
+        c9 = ref_encrypt(plain, rng.choice(ALPHA))
+        if k % 2 == 0 and "-" not in c9:
+            continue
+        for tmpl in ("# previous value was %s before the change", "description old key %s rotated", "remark %s"):
+            line = tmpl % c9
+            o = io.StringIO()
+            res.evaluations += 1
+            try:
+                FileAnonymizer(anon_pwd=True, anon_ip=False, salt="TESTSALT").anonymize_io(io.StringIO(line + "\n"), o)
+            except Exception as e:  # noqa
+                fails.append({"kind": "secret stage raised on a line with a `$9$` value", "line": line, "exc": repr(e)})
+                continue
+            toks = re.findall(r"\$9\$\S+", o.getvalue())
+            good = False
+            if len(toks) == 1:
+                try:
+                    good = ref_decrypt(toks[0]).startswith("netconanRemoved")
+                except ValueError:
+                    good = False
+            if not good:
+                fails.append({"kind": "the `$9$` string written for a `$9$` secret is not a well-formed string that decrypts to the place holder",
+                              "line": line, "output": o.getvalue()})
     # malformed stream: wrong alphabet, truncated groups, trailing newline, short, wrong magic, Unicode
     bad = []
     for plain, c in rng.sample(crypts, min(len(crypts), 400 if tier == "thorough" else 120)):
